@@ -107,7 +107,7 @@ func genProto(r *gen.Rand, t *ref.VersionTraits) protoSpec {
 	types := append(append([]string{}, gen.ProtectedTypes...), gen.OtherTypes...)
 	typ := gen.Pick(r, types)
 	ps := protoSpec{Type: typ, Sender: gen.Pick(r, []string{"@alice:a.example", "@bob:b.example:8448", "@c_d=e/f.g-h:a.example"}),
-		RoomID: "!room:a.example", Depth: int64(gen.Pick(r, []int{0, 1, 2, 17, 1 << 40, 9007199254740991}))}
+		RoomID: "!room:a.example", Depth: int64(gen.Pick(r, []int{0, 1, 2, 17, 1 << 40, 9007199254740991, 9007199254740990, 9007199254740992, 1 << 62}))}
 	if t.Domainless {
 		ps.RoomID = "!" + base64.RawURLEncoding.EncodeToString(r.Bytes(32))
 	}
@@ -213,6 +213,12 @@ func runC03(c *mon.Ctx) {
 			vr := r.Fork("variants")
 			c.Case("roundtrip:"+string(ver)+":"+ps.Type, map[string]any{"version": ver, "proto": ps, "content": string(ps.Content)}, func() {
 				ev, err := buildEvent(ver, ps, id, baseTime)
+				if err != nil && t.EnforceCanon && ps.Depth > 9007199254740991 {
+					// versions 6+ cannot carry such a depth in canonical JSON: refusing is right, and the only other
+					// outcome the checks below accept is an event that carries exactly this depth and round-trips
+					c.Count("build_refused_depth_beyond_canonical_range")
+					return
+				}
 				if err != nil {
 					c.Failf("build:refuses-valid-proto", "Build(v%s): %v", ver, err)
 					return
